@@ -22,7 +22,7 @@ import json,sys,subprocess
 id,d,change,needs,verdict,det=sys.argv[1:7]
 commit=subprocess.check_output(['git','-C','/repo','rev-parse','--short','HEAD']).decode().strip()
 m={"property":id,"change":change,"needs_to_manifest":needs,
- "origin":"independent sub-agent (round 4: told which kinds of change had already been tried) given only the property text and a scratch worktree of /repo",
+ "origin":"independent sub-agent (round 7: fresh sample, no list of earlier attempts) given only the property text and a scratch worktree of /repo",
  "confirmed_by":"tools/verify_seed.sh: "+verdict+" (patch applies and builds; gorm's root and tests/ suites pass with it, private TMPDIR; the demonstration fails with the change and passes without it)",
  "repo_commit":commit,
  "detected_by":("quick tier of"+det) if det.strip() else "MISSED at intake"}
